@@ -729,7 +729,8 @@ void DocumentBuilder::expectation_value(const char* res, const char* type, const
         currentExpectation->status = query_status_t::Unknown;
     }
     currentExpectation->value_type = _type;
-    currentExpectation->value = value;
+    if (value != nullptr)
+        currentExpectation->value = value;
 }
 
 void DocumentBuilder::expect_resource(const char* type, const char* value, const char* unit)
